@@ -6,6 +6,7 @@ import (
 	"fmt"
 	"math/rand"
 	"os"
+	"sort"
 	"sync"
 	"sync/atomic"
 	"testing"
@@ -186,6 +187,88 @@ func runRace(sc raceScenario) (ops int64) {
 	return atomic.LoadInt64(&n)
 }
 
+// runFreeRevisions: free-running writers (real threads, no bubble, no hooks) on one node; what is
+// observed is the revision in the header of every successful write. The token scheduler can only
+// switch tasks at cooperative points, so a revision allocator that is not atomic between two of them
+// is invisible to the simulation proper; here the interleaving is the Go runtime's (the workload
+// replays from its seed, the interleaving does not).
+func runFreeRevisions(sc raceScenario) (ops int64, dups []uint64, nonMono []string, panics []string) {
+	w := &world.World{}
+	inner, _, err := w.NewEngineFor("memkv")
+	if err != nil {
+		fmt.Fprintln(os.Stderr, "engine:", err)
+		os.Exit(2)
+	}
+	defer w.AbandonEngines()
+	b := backend.NewBackend(inner, backend.Config{Prefix: prefix, Identity: "free", WatchCacheSize: sc.Cache, EnableEtcdCompatibility: true}, world.NewRecMetrics(nil))
+	b.SetCurrentRevision(1000)
+	ctx := context.Background()
+	var mu sync.Mutex
+	var all []uint64
+	var wg sync.WaitGroup
+	start := make(chan struct{})
+	var n int64
+	for g := 0; g < sc.Workers; g++ {
+		wg.Add(1)
+		go func(g int) {
+			defer wg.Done()
+			defer func() {
+				if x := recover(); x != nil {
+					mu.Lock()
+					panics = append(panics, fmt.Sprint(x))
+					mu.Unlock()
+				}
+			}()
+			r := rand.New(rand.NewSource(int64(sc.Seed) + int64(g)*104729))
+			known := map[string]uint64{}
+			var mine []uint64
+			<-start
+			for i := 0; i < sc.Ops; i++ {
+				key := fmt.Sprintf("%s/g%d/k%d", prefix, g, r.Intn(sc.Keys))
+				atomic.AddInt64(&n, 1)
+				rev, had := known[key]
+				switch {
+				case !had:
+					resp, err := b.Create(ctx, &proto.CreateRequest{Key: []byte(key), Value: []byte("c")})
+					if err == nil && resp.Succeeded {
+						known[key] = resp.Header.Revision
+						mine = append(mine, resp.Header.Revision)
+					}
+				case r.Intn(4) == 0:
+					resp, err := b.Delete(ctx, &proto.DeleteRequest{Key: []byte(key), Revision: rev})
+					if err == nil && resp.Succeeded {
+						delete(known, key)
+						mine = append(mine, resp.Header.Revision)
+					}
+				default:
+					resp, err := b.Update(ctx, &proto.UpdateRequest{Kv: &proto.KeyValue{Key: []byte(key), Value: []byte("u"), Revision: rev}})
+					if err == nil && resp.Succeeded {
+						known[key] = resp.Header.Revision
+						mine = append(mine, resp.Header.Revision)
+					}
+				}
+			}
+			mu.Lock()
+			for i := 1; i < len(mine); i++ {
+				if mine[i] <= mine[i-1] && len(nonMono) < 5 {
+					nonMono = append(nonMono, fmt.Sprintf("writer %d: revision %d acknowledged after revision %d", g, mine[i], mine[i-1]))
+				}
+			}
+			all = append(all, mine...)
+			mu.Unlock()
+		}(g)
+	}
+	close(start)
+	wg.Wait()
+	sort.Slice(all, func(i, j int) bool { return all[i] < all[j] })
+	for i := 1; i < len(all); i++ {
+		if all[i] == all[i-1] && (len(dups) == 0 || dups[len(dups)-1] != all[i]) && len(dups) < 10 {
+			dups = append(dups, all[i])
+		}
+	}
+	return atomic.LoadInt64(&n), dups, nonMono, panics
+}
+
 // TestRace executes seeded free-running workloads; the race detector reports to stderr.
 func TestRace(t *testing.T) {
 	if os.Getenv("VERIF_RACE") == "" {
@@ -199,7 +282,11 @@ func TestRace(t *testing.T) {
 		Index    int          `json:"index"`
 		Scenario raceScenario `json:"scenario"`
 		Ops      int64        `json:"ops"`
+		Dups     []uint64     `json:"duplicate_revisions,omitempty"`
+		NonMono  []string     `json:"non_monotonic,omitempty"`
+		Panics   []string     `json:"panics,omitempty"`
 	}
+	freeRevs := os.Getenv("VERIF_FREE_MODE") == "revisions"
 	var recs []runRec
 	for idx := from; idx < to && time.Since(start) < budget; idx++ {
 		var sc raceScenario
@@ -208,11 +295,21 @@ func TestRace(t *testing.T) {
 		} else {
 			sc = genRace(rt.NewRand(rt.Mix(rt.MixStr(seed, "C19"), uint64(idx))), idx)
 		}
+		if freeRevs && os.Getenv("VERIF_REPLAY_SC") == "" {
+			r := rt.NewRand(rt.Mix(rt.MixStr(seed, "C02-free"), uint64(idx)))
+			sc = raceScenario{Seed: r.Uint64(), Engine: "memkv", Workers: 4 + r.Intn(13), Ops: 2000 + r.Intn(4000), Keys: 20 + r.Intn(80), Cache: []int{0, 64}[r.Intn(2)]}
+		}
 		b, _ := json.Marshal(sc)
 		fmt.Fprintf(os.Stderr, "\nRACE-RUN-BEGIN %d %s\n", idx, b)
+		if freeRevs {
+			ops, dups, nonMono, panics := runFreeRevisions(sc)
+			fmt.Fprintf(os.Stderr, "\nRACE-RUN-END %d ops=%d\n", idx, ops)
+			recs = append(recs, runRec{idx, sc, ops, dups, nonMono, panics})
+			continue
+		}
 		ops := runRace(sc)
 		fmt.Fprintf(os.Stderr, "\nRACE-RUN-END %d ops=%d\n", idx, ops)
-		recs = append(recs, runRec{idx, sc, ops})
+		recs = append(recs, runRec{Index: idx, Scenario: sc, Ops: ops})
 	}
 	if out := os.Getenv("VERIF_OUT"); out != "" {
 		b, _ := json.Marshal(recs)
